@@ -13,6 +13,7 @@ import (
 	"sort"
 	"strings"
 
+	"github.com/agglayer/aggkit/l1infotreesync"
 	aggsync "github.com/agglayer/aggkit/sync"
 	"github.com/ethereum/go-ethereum/common"
 	"verif/h/ref"
@@ -143,11 +144,24 @@ func statePools(chain *sk.Chain, extra []uint64) *pools {
 		p.addHash(roots[0])
 		p.addHash(roots[len(roots)-1])
 	}
+	if len(leaves) > 0 {
+		p.addHash(leaves[0])
+		p.addHash(leaves[len(leaves)-1])
+	}
 	ev := &pools{}
+	var gers []common.Hash
 	for _, b := range chain.Blocks {
 		for _, e := range b.Block.Events {
 			harvest(reflect.ValueOf(e), ev, 0)
+			if le, ok := e.(l1infotreesync.Event); ok && le.UpdateL1InfoTree != nil {
+				gers = append(gers, ref.GER(le.UpdateL1InfoTree.MainnetExitRoot, le.UpdateL1InfoTree.RollupExitRoot))
+			}
 		}
+	}
+	// reference-derived: the global exit roots of the first and the last leaf
+	if n := len(gers); n > 0 {
+		p.addHash(gers[0])
+		p.addHash(gers[n-1])
 	}
 	// the first and the last value named by the chain's events
 	if n := len(ev.hashes); n > 0 {
